@@ -381,7 +381,7 @@ func run(c *core.Ctx) {
 	c.SetExhaustive("all pairs of fields x reduced corpus")
 	// seeded full assignments
 	r := c.Rng("full")
-	n := c.N(80000, 3000000) / c.NShards
+	n := c.N(400000, 6000000) / c.NShards
 	for i := 0; i < n; i++ {
 		f := map[string][]string{}
 		nf := 1 + r.Intn(6)
